@@ -219,4 +219,7 @@ MUTANTS += [
     dict(id="c18_leaky_tanh_logdet_sqrt", prop="C18", file=TH,
          old="        log_grads = jnp.where(\n            jnp.abs(y) >= jnp.tanh(self.max_val),\n            jnp.log(self.linear_grad),\n            _tanh_log_grad(x),\n        )\n        return x, -jnp.sum(log_grads)\n",
          new="        log_grads = jnp.where(\n            jnp.abs(y) >= jnp.tanh(self.max_val),\n            jnp.log(self.linear_grad),\n            jnp.log1p(-(y**2)),\n        )\n        return x, -jnp.sum(log_grads)\n"),
+    dict(id="c12_conditioner_parameterises_frozen", prop="C12", file="flowjax/utils.py",
+         old="        is_leaf=lambda leaf: isinstance(leaf, flowjax.wrappers.NonTrainable),\n",
+         new=""),
 ]
